@@ -2,6 +2,7 @@ SPECIFICATION Spec
 CONSTANTS
  Tasks <- T2
  Deps <- D2
+ Faulty <- NoFaulty
  Roots <- R2
  Mach <- M3
  MaxKills = 1
